@@ -13,7 +13,7 @@ import json,sys
 try:
   l=json.load(open('$wt/_seed/meta.json')); m=[x for x in l if x.get('patch')=='p$k.patch']; print(m[0].get('demo','') if m else '')
 except Exception as e: print('')")
-  S=$(mktemp -d /tmp/ms.XXXXXX); rsync -a --exclude .git /repo/ $S/repo/; mkdir -p $S/verif/evidence; cp /verif/known_findings.txt $S/verif/
+  S=$(mktemp -d /tmp/ms.XXXXXX); mkdir -p $S/repo && git -C /repo archive HEAD | tar -x -C $S/repo; mkdir -p $S/verif/evidence; cp /verif/known_findings.txt $S/verif/
   tname=""; pkg=""
   if [ -n "$demo" ] && [ -n "$dpath" ]; then cp $demo $S/repo/$dpath; tname=$(grep -o 'func Test[A-Za-z0-9_]*' $demo | head -1 | sed 's/func //'); pkg=./$(dirname $dpath); fi
   without="n/a"; with="n/a"
